@@ -490,3 +490,14 @@ example :
     SymNb A (neighbours [3, 3] #[0, 1, 0, 1, 1, 1, 0, 1, 0]) ∧
     (reachFinal A (neighbours [3, 3] #[0, 1, 0, 1, 1, 1, 0, 1, 0])).toList = List.replicate 9 false :=
   ⟨⟨by decide, by decide⟩, by decide⟩
+
+/-- **the two lists the driver prints for `hitmiss` are equal** for every image of rank ≥ 1 and every template
+of that rank with positive sides (odd, even, larger than the image): the model's output array (`model=`) is the
+closed form's (`closed=`), position by position over the whole image. -/
+theorem C14_hitmiss_closed_form_arrays (A : Img Int) (bshape : List Nat) (bc : Array Int)
+    (hpos : ∀ b ∈ bshape, 0 < b) (hne : A.shape ≠ []) (hl1 : bshape.length = A.shape.length) :
+    (allPos A.shape).map (hitmissAt A bshape (hmEntries bshape bc)) =
+      (allPos A.shape).map (hitmissClosedAt A bshape bc) :=
+  List.map_congr_left fun p hp =>
+    C14_hitmiss_even_closed_form A bshape bc p hpos hne hl1
+      (C01.inside_length ((C01.mem_allPos A.shape p).mp hp))
